@@ -1227,11 +1227,16 @@ def run_mutants(pid, res, mutants, parts=("include", "src", "cmake", "CMakeLists
                 summary[m["id"]] = "missed"
                 bad.append((m["id"], "missed", f"new reports: {sorted(got - base)[:6]}"))
         if controls and len(controls) == len(ms):
-            if rc == 2:
+            # a control may be a *fix*: the listed (rule, construct substring) reports must disappear, nothing else change
+            fixes = [f for m in controls for f in m.get("fixes", ())]
+            want = {b for b in base if not any(b[0] == f[0] and f[1] in b[1] for f in fixes)}
+            if fixes and want == base:
+                bad.append((g, "fix control is stale", "the findings it removes are not reported on the unmutated tree"))
+            elif rc == 2:
                 for m in controls:
                     summary[m["id"]] = "control-refused"
                 bad.append((g, "control group refused", out[-300:]))
-            elif got == base:
+            elif got == want:
                 for m in controls:
                     summary[m["id"]] = "silent"
                     res.ok("SELFTEST", m["id"], {"status": "silent"})
@@ -1239,7 +1244,7 @@ def run_mutants(pid, res, mutants, parts=("include", "src", "cmake", "CMakeLists
                 for m in controls:
                     summary[m["id"]] = "control-fired"
                 bad.append((g, "control group changed the result",
-                            f"extra={sorted(got - base)[:5]} missing={sorted(base - got)[:5]}"))
+                            f"extra={sorted(got - want)[:5]} missing={sorted(want - got)[:5]}"))
     res.extra["selftest"] = summary
     if bad:
         raise AnalysisError("checker self-test failed: " + "; ".join(f"{m}: {s} [{d[:300]}]" for m, s, d in bad))
